@@ -480,7 +480,7 @@ theorem stepThread_results (s : Sys) (t : Thread) :
     simp only
     split
     · exact Or.inl rfl
-    · exact adv _
+    · exact Or.inl rfl
   | cQuiesced blk => exact Or.inl rfl
   | cWait blk => exact Or.inl rfl
   | cRead blk => exact Or.inl rfl
